@@ -105,7 +105,7 @@ func (fx *fnExec) callMods(in ssa.CallInstruction, allocs map[*ssa.Alloc]bool, k
 			havocAllMod()
 			continue
 		}
-		if c != nil && !c.Inline && !c.Lemma {
+		if c != nil && !c.Inline && !c.Lemma && !(ex.useBody(callee) && callee.Blocks != nil) {
 			if c.HavocAll {
 				ex.havocAllKeys(fx, c, callee, keys)
 			}
@@ -123,7 +123,7 @@ func (fx *fnExec) callMods(in ssa.CallInstruction, allocs map[*ssa.Alloc]bool, k
 		path := pkgPathOf(callee)
 		if ex.HavocCallsC != nil {
 			// same decision as at the call: not inlinable -> abstracted by whole-heap havoc
-			inl := (c != nil && c.Inline) || inlinePkgs[path] || callee.Parent() != nil
+			inl := (c != nil && c.Inline) || inlinePkgs[path] || callee.Parent() != nil || ex.useBody(callee)
 			if !inl && inRepo(callee) && !hasLoops(callee) && len(callee.Blocks) <= havocInlineBlocks {
 				inl = true
 			}
